@@ -158,18 +158,36 @@ def run(ctx, rep):
             nonce_local = None
         rep.check("C04.c", "nonce-is-local", nonce_local is not None, where=where(E, bb), what="the nonce is a local of encrypt_data (not a field, static or parameter)")
         if nonce_local is not None:
-            fills = []
-            for b2, t2 in E.calls():
-                if "callee" in t2 and re.search(r"::fill_bytes$", callee(t2) + " " + callee_decl(t2).replace(" ", "")) or ("callee" in t2 and callee_decl(t2).endswith("fill_bytes")):
-                    nsl = flow.backward_slice(E, op_place(t["args"][1]))["locals"] | {nonce_local}
-                    for a in t2["args"][1:]:
-                        bl = flow.base_local(E, op_place(a)) if op_place(a) else None
-                        # the buffer that is filled is the nonce itself or the array the nonce is built from
-                        if bl is not None and bl in nsl and bl > E.argc:
-                            src = flow.origins(E, op_place(t2["args"][0])) if op_place(t2["args"][0]) else []
-                            rng = any(o.kind == "call" and re.search(r"^rand::(rng|thread_rng)$|rand::rngs::", o.data[1]) for o in src)
-                            fills.append((b2, rng))
-            okf = bool(fills) and all(C.dominates(E, f, bb) for f, _ in fills) and all(r for _, r in fills)
+            def filled_from_rng(B, place, use_bb, depth=0):
+                """the buffer behind `place` is filled by rand::rng().fill_bytes at sites that dominate use_bb - in B itself, or in
+                a crate-local helper that returns the freshly filled value (`fn random_nonce() -> Nonce`)"""
+                base = flow.base_local(B, place)
+                nsl = flow.backward_slice(B, place)["locals"] | ({base} if base is not None else set())
+                fills = []
+                for b2, t2 in B.calls():
+                    if "callee" in t2 and (re.search(r"::fill_bytes$", callee(t2)) or callee_decl(t2).endswith("fill_bytes")):
+                        for a in t2["args"][1:]:
+                            bl = flow.base_local(B, op_place(a)) if op_place(a) else None
+                            # the buffer that is filled is the nonce itself or the array the nonce is built from
+                            if bl is not None and bl in nsl and bl > B.argc:
+                                src = flow.origins(B, op_place(t2["args"][0])) if op_place(t2["args"][0]) else []
+                                rng = any(o.kind == "call" and re.search(r"^rand::(rng|thread_rng)$|rand::rngs::", o.data[1]) for o in src)
+                                fills.append((b2, rng))
+                if fills:
+                    return all(C.dominates(B, f, use_bb) for f, _ in fills) and all(r for _, r in fills)
+                if depth >= 2:
+                    return False
+                orig = flow.origins(B, place)
+                hs = [o for o in orig if o.kind == "call" and o.data[1].startswith("rustic_core::") and o.data[1] in prog.bodies]
+                if not orig or len(hs) != len(orig):
+                    return False
+                for o in hs:
+                    H = prog.bodies[o.data[1]]
+                    rets = H.returns()
+                    if not rets or not all(filled_from_rng(H, [0], r_, depth + 1) for r_ in rets):
+                        return False
+                return True
+            okf = filled_from_rng(E, op_place(t["args"][1]), bb)
             rep.check("C04.c", "nonce-filled-from-rng", okf, where=where(E, bb), what="the nonce is filled by rand::rng().fill_bytes on every path before it is used" if okf else "the nonce is NOT freshly filled from rand::rng() before encryption (nonce reuse)")
             # the same nonce is what is prepended (first extend_from_slice)
             ext = [(b2, t2) for b2, t2 in E.calls() if "callee" in t2 and callee(t2).endswith("extend_from_slice")]
